@@ -83,13 +83,11 @@ class CaptureRegion:
                                  being presented.
         """
         read_start = current_position - len(chunk)
-        if (read_start <= self.offset <= current_position or
-                self.offset <= read_start <= (self.offset + self.length)):
-            if read_start < self.offset:
-                lead_gap = self.offset - read_start
-            else:
-                lead_gap = 0
-            self.data += chunk[lead_gap:]
+        # Only take data if this chunk contains the next byte we need, so
+        # that what we hold is always a contiguous run starting at offset.
+        next_needed = self.offset + len(self.data)
+        if read_start <= next_needed < current_position:
+            self.data += chunk[next_needed - read_start:]
             self.data = self.data[:self.length]
 
 
